@@ -15,6 +15,7 @@
 //	{"k":"sctxs","shape":"v"|"l","l":V}   the ten boolean contexts as script statements
 //	{"k":"suns","shape":"v"|"l","l":V}    the unary operators as script statements
 //	{"k":"casts","l":V} / {"k":"scasts","shape":..,"l":V}   (int) and (float): call node / script
+//	{"k":"sassign","l":V,"r":V} a variable holding l is assigned r (routes lit/var/loop/fn/elem/prop); what it holds after
 //	{"k":"iface"}               the interface-implementation table (reflection)
 //
 // pair/same/uns answers carry "orc": the graphs of strconv.ParseFloat, strconv.FormatFloat
@@ -357,6 +358,40 @@ func scriptOps(l, r *V, shape string) []Obs {
 			ob.V = &inv
 		}
 		res = append(res, ob)
+	}
+	return res
+}
+
+var assignRoutes = []string{"lit", "var", "loop", "fn", "elem", "prop"}
+
+// litZ: like lit, but negative zero is written -0.0 (unary minus on the literal)
+func litZ(v *V) (string, bool) {
+	if v.K == "float" {
+		b, _ := strconv.ParseUint(v.Bits, 10, 64)
+		if f := math.Float64frombits(b); f == 0 && math.Signbit(f) {
+			return "-0.0", true
+		}
+	}
+	return lit(v)
+}
+
+func scriptAssign(l, r *V) []Obs {
+	ls, ok1 := litZ(l)
+	rs, ok2 := litZ(r)
+	if !ok1 || !ok2 {
+		return nil
+	}
+	src := map[string]string{
+		"lit":  "$x = " + ls + "; $x = " + rs + ";\nc03_emit($x);\n",
+		"var":  "$m = " + rs + "; $x = " + ls + "; $x = $m;\nc03_emit($x);\n",
+		"loop": "$x = " + ls + ";\nfor ($i = 0; $i < 2; $i = $i + 1) { $x = " + rs + "; }\nc03_emit($x);\n",
+		"fn":   "$f = function() { $x = " + ls + "; $x = " + rs + "; return $x; };\nc03_emit($f());\n",
+		"elem": "$a = [" + ls + "]; $a[0] = " + rs + ";\nc03_emit($a[0]);\n",
+		"prop": "$o = new C03P(); $o->p = " + ls + "; $o->p = " + rs + ";\nc03_emit($o->p);\n",
+	}
+	var res []Obs
+	for _, route := range assignRoutes {
+		res = append(res, runStmt(src[route]))
 	}
 	return res
 }
@@ -767,6 +802,14 @@ func runCase(c Case) (o Obs) {
 			return Obs{Out: "skip"}
 		}
 		return Obs{Out: "uns", LR: r, Orc: oracleFor(c.L)}
+	case "sassign":
+		// a variable with a HISTORY: it holds l, then r is assigned to it, in five syntactic routes;
+		// what it holds afterwards is observed (kind and, for floats, bits)
+		r := scriptAssign(c.L, c.R)
+		if r == nil {
+			return Obs{Out: "skip"}
+		}
+		return Obs{Out: "assign", LR: r}
 	case "scasts":
 		r := scriptUns(c.L, c.Shape, castOps)
 		if r == nil {
